@@ -108,10 +108,10 @@ SUITES = {
     'C13': [('determinism', _determinism, 'HashMap/HashSet iteration order in scoper/typer/expander',
              'invalid and valid samples of the repository plus 4 constructed multi-error modules, each compiled in 3 (thorough: 5) fresh processes'),
             ('alpha_lexer_spans', _lexa, 'none (spans are also proved: U-LEXA); kept as replay source', 'as C09.alpha_lexer_tokens'),
-            ('alpha_lexer_spans_crlf', _lexa_crlf, 'str::lines is modelled by three facts only: the proved line offsets are the running sum of chars+1, not the true index',
+            ('alpha_lexer_spans_crlf', _lexa_crlf, 'the trusted model of str::split_inclusive / strip_suffix on which the proved line offsets rest',
              'as C09.alpha_lexer_tokens with every line end written CRLF')],
     'C14': [('alpha_lexer_tokens', _lexa, 'agreement of the two lexers (each is verified against its own spec)', 'as C09.alpha_lexer_tokens'),
-            ('alpha_lexer_tokens_crlf', _lexa_crlf, 'str::lines is modelled by three facts only', 'as C09.alpha_lexer_tokens with every line end written CRLF')],
+            ('alpha_lexer_tokens_crlf', _lexa_crlf, 'the trusted model of str::split_inclusive / strip_suffix', 'as C09.alpha_lexer_tokens with every line end written CRLF')],
     'C15': [('delta_front_end_crash_search', _delta_crash, 'XML dumps, recursion depth',
              'fixed seeds, boundary runs of every token (127..1000 repeats), inputs at the token limit, repository samples, token soup of length <= 4 (thorough: <= 6)'),
             ('deep_nesting', _depth, 'recursion depth of the parser (unbounded stack is an assumption of the proof); the XML printer',
